@@ -8,7 +8,9 @@ predicate the runner applies to the implementation's observations.
 Quantification: any number of threads (`progs` is any list; generator instances are the `inst`
 fields), any programs of Generate / Release / release-own / renew-own calls, any candidate streams
 (`Op.gen` carries an arbitrary function), any pre-existing markers `pre` (live, expired, duplicated),
-any schedule `σ` of atomic steps and clock ticks, any TTL and attempt bound per kind.
+any schedule `σ` of atomic steps, clock ticks and *faulted* steps (`Sch.fault`: the storage call of
+that step returns a transient error and is not applied — any number of them, at any position), any TTL
+and attempt bound per kind.
 
 Scope (WF, stated not hidden): liveness is bounded by the marker TTL — `holds` replays the history on
 a reference live-set in which a marker expires `ttl` after it was written (or renewed); an id whose
@@ -77,6 +79,29 @@ theorem C15_exhaustion_marks_nothing (P : Params) (c : Cfg) (tid t kind : Nat)
     have := List.append_cancel_left h
     simp at this
     exact absurd this (hne t kind)
+
+theorem failEvs_no_ok (P : Params) (tid kind a : Nat) :
+    ∀ e ∈ failEvs P tid kind a, ∀ t k i, e ≠ .ok t k i := by
+  intro e he t k i
+  unfold failEvs at he
+  split at he <;> simp at he
+  subst he; simp
+
+/-- **A failed storage call never hands out an id.** Whatever operation the thread is in and on
+either path, a step whose storage call returns an error (a transient fault of the shared tier: on
+`SetNX`, `Exists`, `Set`, `Delete`) leaves the store unchanged and reports no `ok`: `Generate` /
+`AllocateNodeID` skip the candidate (or give up cleanly), `Release`/renewal return the error.  Together
+with `C15_main` / `C15_fallback_single`, whose schedules may contain any number of such faulted steps,
+a fault can therefore never make a taken candidate be handed out. -/
+theorem C15_fault_never_hands_out_taken (P : Params) (c : Cfg) (tid : Nat) :
+    (stepFault P c tid).store = c.store ∧
+    ∃ evs, (stepFault P c tid).trace = c.trace ++ evs ∧ ∀ e ∈ evs, ∀ t k i, e ≠ .ok t k i := by
+  unfold stepFault
+  repeat' split
+  all_goals first
+    | exact ⟨rfl, [], (List.append_nil _).symm, by simp⟩
+    | exact ⟨by simp [failCfg], _, rfl, failEvs_no_ok P _ _ _⟩
+    | exact ⟨rfl, _, rfl, by simp⟩
 
 /-! ## Fallback path (store without `SetNX`): `mu.Lock; Exists; Set; mu.Unlock` -/
 
